@@ -100,10 +100,19 @@ Definition without (i : nat) (q : quirks) : quirks :=
      q_sandbox_remote_import := if Nat.eqb i 2 then false else q_sandbox_remote_import q;
      q_macro_full_scope := if Nat.eqb i 3 then false else q_macro_full_scope q |}.
 
-(* the result depends on quirk i: it alone changes the repaired result, or removing it from the
+(* the result depends on the ENABLED quirk i (DESIGN §4, K(x)): it alone changes the repaired result, or removing it from the
    committed set changes the current result *)
+Definition enabled (i : nat) (q : quirks) : bool :=
+  match i with
+  | O => q_evalvalue_full_scope q
+  | 1%nat => q_sandbox_local_import q
+  | 2%nat => q_sandbox_remote_import q
+  | _ => q_macro_full_scope q
+  end.
+
 Definition depends (qcur : quirks) (i : nat) (only : quirks) (k : case18) (mq moff : mobs) : bool :=
-  negb (mobs_eqb (mobs_of only k) moff) || negb (mobs_eqb (mobs_of (without i qcur) k) mq).
+  enabled i qcur &&
+  (negb (mobs_eqb (mobs_of only k) moff) || negb (mobs_eqb (mobs_of (without i qcur) k) mq)).
 
 Definition classify (qcur : quirks) (k : case18) : Z :=
   let i : mobs := (c_st k, c_cls k, c_eff k) in
